@@ -251,6 +251,7 @@ carquet_status_t carquet_batch_reader_next(
 
     /* Check if we need to move to next row group */
     if (batch_reader->current_row_group < 0 ||
+        !batch_reader->col_readers[0] ||
         !carquet_column_has_next(batch_reader->col_readers[0])) {
 
         batch_reader->current_row_group++;
@@ -262,6 +263,10 @@ carquet_status_t carquet_batch_reader_next(
         carquet_status_t status = open_row_group_readers(
             batch_reader, batch_reader->current_row_group, &err);
         if (status != CARQUET_OK) {
+            /* No column reader is open now: stay in front of the row group
+             * that could not be opened, so that a further call reports the
+             * same error instead of dereferencing a NULL reader */
+            batch_reader->current_row_group--;
             return status;
         }
     }
